@@ -10,6 +10,9 @@ FS = "receiver::writer::objectwriterfs::ObjectWriterFS"
 FSI = "receiver::writer::objectwriterfs::ObjectWriterFSInner"
 OPEN = "<%s as receiver::writer::ObjectWriter>::open" % FS
 ERROR = "<%s as receiver::writer::ObjectWriter>::error" % FS
+# the two failure callbacks do the same clean-up (interrupted() calls error() today; a shared helper inlined into both is the same thing): each
+# is held to the same rule - the only deletion is remove_file(inner.destination)
+INTERRUPTED = "<%s as receiver::writer::ObjectWriter>::interrupted" % FS
 
 SINK = re.compile(r"^std::fs::(File::create|File::create_new|File::options|OpenOptions::open|create_dir|create_dir_all|remove_file|remove_dir|"
                   r"remove_dir_all|rename|copy|write|hard_link|soft_link|set_permissions|DirBuilder::create)$|^std::os::unix::fs::(symlink|chown|lchown)$|"
@@ -41,7 +44,7 @@ def run(ctx):
     for s in sinks:
         caller = s.func.root().path
         key = "%s -> %s" % (caller, model.short_callee(s.term.callee_path()))
-        if caller in (OPEN, ERROR):
+        if caller in (OPEN, ERROR, INTERRUPTED):
             r1.ok(key, "", s.loc)
         else:
             r1.violation(key, "filesystem mutation outside ObjectWriterFS::open/error", s.loc)
@@ -120,12 +123,13 @@ def run(ctx):
                 r3.violation(key, "writer starts with a deletable path", loc(a["sp"]))
         else:
             r3.violation(key, "destination set outside open", loc(a["sp"]))
-    e = prog.fn(ERROR)
-    ctx.analysed(e.path)
-    esl = Slicer(e.body)
-    for s in [x for x in sinks if x.func.root().path == ERROR]:
+    for EFN in (ERROR, INTERRUPTED):
+      e = prog.fn(EFN)
+      ctx.analysed(e.path)
+      esl = Slicer(e.body)
+      for s in [x for x in sinks if x.func.root().path == EFN]:
         srcs = esl.sources(s.expr[2][0])
-        key = "error sink %s" % model.short_callee(s.term.callee_path())
+        key = "%s sink %s" % (EFN.split("::")[-1], model.short_callee(s.term.callee_path()))
         vars_ = [z for z in srcs if z.startswith("var:")]
         base = r"var:(inner|self\.inner|RefMut::deref(_mut)?\(&inner\)|Option::(take|as_ref|as_deref|as_mut)\(&?RefMut::deref(_mut)?\(&inner\)\.destination\))"
 
